@@ -49,14 +49,13 @@ func newSockPeer() (*sockPeer, error) {
 }
 
 func (p *sockPeer) awaitAccept() bool {
-	select {
-	case c := <-p.accepted:
-		p.cur = c
-		p.all = append(p.all, c)
-		return true
-	case <-time.After(adpWatch):
+	c, ok := laRecv(p.accepted, adpWatch)
+	if !ok {
 		return false
 	}
+	p.cur = c
+	p.all = append(p.all, c)
+	return true
 }
 
 func (p *sockPeer) shutdown() {
@@ -141,17 +140,16 @@ func runAds(hist []byte, cfg adpCfg) (string, []string) {
 			frugal.VerifAdapterRegister(c.ft, ctx, resC)
 			fr := goodFrame(c.nextOp, par)
 			peer.cur.Write(fr)
-			select {
-			case got := <-resC:
-				if string(got) != string(fr[4:]) {
-					c.violate("delivered frame differs from the frame sent")
-					return "d?"
-				}
-				return "d"
-			case <-time.After(adpWatch):
+			got, ok := laRecv(resC, adpWatch)
+			if !ok {
 				c.violate("a whole frame was not delivered")
 				return "blocked"
 			}
+			if string(got) != string(fr[4:]) {
+				c.violate("delivered frame differs from the frame sent")
+				return "d?"
+			}
+			return "d"
 		case 4, 5, 6, 7, 8, 9:
 			if !c.obsOpen() || c.curLoop == nil {
 				return "skip"
